@@ -5,6 +5,7 @@
 //   ad_builder   A x                        rows cols | CRS | A*x
 //   ad_block     b A alpha x beta y         rows cols est | BCRS | alpha*B*x + beta*y   or `precondition`
 //   ad_hybrid    b A alpha x beta y         alpha*B*x + beta*y (builtin_hybrid)         or `precondition`
+//   ad_block_eigen b A alpha x beta y       same with the Eigen::Matrix<double,b,b> value type on small integers
 //   ad_unblock   b B                        CRS
 //   ad_complex   A z                        rows cols nnz | CRS | Ahat*zhat | A*z
 //   ad_reorder   A perm f y x0              iperm | CRS | forward f | inverse y into x0 | B*y
@@ -24,6 +25,7 @@
 #include <amgcl/adapter/eigen.hpp>
 #include <amgcl/adapter/ublas.hpp>
 #include <amgcl/value_type/static_matrix.hpp>
+#include <amgcl/value_type/eigen.hpp>
 #include <amgcl/value_type/complex.hpp>
 #include <amgcl/backend/builtin_hybrid.hpp>
 #include <amgcl/relaxation/as_preconditioner.hpp>
@@ -209,6 +211,52 @@ template <int B> struct Blocks {
     }
 };
 
+// ---------------------------------------------------------------------------------------------- Eigen blocks
+// block adapter with the Eigen block value type (value_type/eigen.hpp), double on exact-in-binary64 integer data
+template <int B> static Result eigen_block(const Mat &A, const Q &al, const std::vector<Q> &x, const Q &be, const std::vector<Q> &y) {
+    typedef Eigen::Matrix<double, B, B> Blk; typedef amgcl::backend::crs<Blk, ptrdiff_t, ptrdiff_t> BCrs;
+    typedef amgcl::backend::crs<double, ptrdiff_t, ptrdiff_t> DCrs;
+    Result r; Line l;
+    std::vector<double> vd(A.val.size()), xd(x.size()), yd(y.size());
+    for (size_t j = 0; j < vd.size(); ++j) vd[j] = A.val[j].v.get_d();
+    for (size_t j = 0; j < xd.size(); ++j) xd[j] = x[j].v.get_d();
+    for (size_t j = 0; j < yd.size(); ++j) yd[j] = y[j].v.get_d();
+    DCrs Ad((size_t)A.n, (size_t)A.m, A.ptr, A.col, vd);
+    const bool canonical = crs_sorted_nodup(*A.crs());
+    std::shared_ptr<BCrs> Bm; size_t rows, cols, est;
+    try {
+        auto ad = amgcl::adapter::block_matrix<Blk>(Ad);
+        rows = amgcl::backend::rows(ad); cols = amgcl::backend::cols(ad); est = amgcl::backend::nonzeros(ad);
+        Bm = std::make_shared<BCrs>(ad);
+    } catch (const std::runtime_error&) {
+        if (A.n % B == 0 && A.m % B == 0) r.fail("block adapter rejected a block-aligned matrix");
+        r.out = "precondition"; r.tag("indivisible"); return r;
+    }
+    // (numa_vector, not std::vector: reinterpret_as_rhs takes `&x[0]`, which is undefined for an EMPTY std::vector)
+    amgcl::backend::numa_vector<double> xn(xd), yn(yd);
+    auto Xb = amgcl::backend::reinterpret_as_rhs<Blk>(xn);
+    auto Yb = amgcl::backend::reinterpret_as_rhs<Blk>(yn);
+    amgcl::backend::spmv(al.v.get_d(), *Bm, Xb, be.v.get_d(), Yb);
+    for (size_t i = 0; i < yd.size(); ++i) yd[i] = yn[i];
+    std::vector<Q> yq(A.n); bool exact = true;
+    for (long i = 0; i < A.n; ++i) { if (!(std::fabs(yd[i]) < 9007199254740992.0) || yd[i] != std::floor(yd[i])) exact = false; yq[i] = Q(yd[i]); }
+    if (!exact) r.fail("result left the exactly representable integers");
+    if (canonical) {
+        Dense D(A.n, std::vector<Q>(A.m));
+        for (size_t i = 0; i < Bm->nrows; ++i) for (auto j = Bm->ptr[i]; j < Bm->ptr[i+1]; ++j) for (int p = 0; p < B; ++p) for (int q = 0; q < B; ++q) D[i * B + p][Bm->col[j] * B + q] += Q(Bm->val[j](p, q));
+        if (!dense_eq(D, dense(A))) r.fail("Eigen block matrix does not have the entries of the scalar matrix");
+        std::vector<Q> ref = dmv(dense(A), x);
+        for (long i = 0; i < A.n; ++i) ref[i] = (be == 0) ? ref[i] * al : ref[i] * al + y[i] * be;
+        if (!veq(yq, ref)) r.fail("Eigen block SpMV on reinterpreted vectors != scalar SpMV");
+    }
+    l << rows << cols << est << BAR << Bm->nrows << Bm->ncols;
+    for (size_t i = 0; i < Bm->nrows; ++i) { l << (long)(Bm->ptr[i+1] - Bm->ptr[i]); for (auto j = Bm->ptr[i]; j < Bm->ptr[i+1]; ++j) { l << (long)Bm->col[j]; for (int p = 0; p < B; ++p) for (int q = 0; q < B; ++q) l << Q(Bm->val[j](p, q)); } }
+    l << BAR << yq;
+    r.out = l.get(); r.tag("eigen_block" + std::to_string(B)); if (!canonical) r.tag("noncanonical");
+    r.nontrivial = !A.col.empty() && canonical;
+    return r;
+}
+
 // ---------------------------------------------------------------------------------------------- reorder
 static std::vector<ptrdiff_t> g_perm;
 struct fixed_order {
@@ -311,6 +359,13 @@ static Result execute(const Toks &t) {
         if (b < 2 || b > 4 || (long)x.size() != A.m || (long)y.size() != A.n) throw bad_input("shape");
         bool hy = op == "ad_hybrid";
         r = b == 2 ? Blocks<2>::block(A, al, x, be, y, hy) : b == 3 ? Blocks<3>::block(A, al, x, be, y, hy) : Blocks<4>::block(A, al, x, be, y, hy);
+    } else if (op == "ad_block_eigen") {
+        long b = c.nat(); Mat A = checked(c); Q al = c.rat(); auto x = c.vec(); Q be = c.rat(); auto y = c.vec(); c.expect_end();
+        if (b < 2 || b > 4 || (long)x.size() != A.m || (long)y.size() != A.n) throw bad_input("shape");
+        auto is_small_int = [](const Q &q) { return q.v.get_den() == 1 && abs(q.v.get_num()) < (1L << 20); };
+        for (auto &v : A.val) if (!is_small_int(v)) throw bad_input("integers"); for (auto &v : x) if (!is_small_int(v)) throw bad_input("integers");
+        for (auto &v : y) if (!is_small_int(v)) throw bad_input("integers"); if (!is_small_int(al) || !is_small_int(be)) throw bad_input("integers");
+        r = b == 2 ? eigen_block<2>(A, al, x, be, y) : b == 3 ? eigen_block<3>(A, al, x, be, y) : eigen_block<4>(A, al, x, be, y);
     } else if (op == "ad_unblock") {
         long b = c.nat(); if (b < 2 || b > 4) throw bad_input("b");
         r = b == 2 ? Blocks<2>::unblock(c) : b == 3 ? Blocks<3>::unblock(c) : Blocks<4>::unblock(c);
